@@ -704,7 +704,7 @@ class Unit:
         """hash(self)"""
         # units of one quantity type with the same scale compare equal, so
         # they must hash equal
-        if self._equiv is None:
+        if self._equiv is None or self._qty_cls._ref_unit is None:
             return hash(self.symbol)
         return hash((self._qty_cls, self._equiv))
 
@@ -719,8 +719,8 @@ class Unit:
         """self == other"""
         if isinstance(other, Unit):
             if self.qty_cls is other.qty_cls:
-                if self._equiv is None:
-                    assert other._equiv is None
+                if self._equiv is None or self._qty_cls._ref_unit is None:
+                    # no reference unit => no common scale
                     return self is other
                 else:
                     assert other._equiv is not None
@@ -882,7 +882,12 @@ class Unit:
                 if self is other:
                     amnt = ONE
                 else:
-                    if self._equiv is None or other._equiv is None:
+                    if self._equiv is None or other._equiv is None or \
+                            (self._qty_cls._ref_unit is None and
+                             self.normalized_definition.split()[1] !=
+                             other.normalized_definition.split()[1]):
+                        # w/o reference unit only units built on the same
+                        # base units have a common scale
                         raise UnitConversionError(
                             "Can't devide '%s' and '%s'.", self, other) \
                             from None
@@ -1078,6 +1083,7 @@ class QuantityMeta(ClassWithDefinitionMeta):
         if is_ref_unit:
             # must be set before the unit gets registered (hash(unit)!)
             unit._equiv = ONE
+            cls._ref_unit = unit
         assert symbol, "A symbol must be given for the unit."
         try:
             _SYMBOL_UNIT_MAP[symbol]
